@@ -103,7 +103,15 @@ def to_trace(sc, res, k):
         lsb = int(-(-(res["max_lsb_diff"] - 1e-6) // 1))
     ok = not any(x["exc"] for x in res["runs"])
     nruns = len(res["runs"])
-    return {"ns": ns, "NB": nb, "np": sc["nproc"], "pad": pad, "off": off, "workers": workers,
+    # few workers: all interleavings; many: worker orders in which every worker finishes last once (+ recorded order)
+    nev = sum(len(w) for w in workers)
+    npx = sc["nproc"]
+    if npx <= 4 and nev <= 14:
+        orders = []
+    else:
+        base = list(range(npx))
+        orders = [base[i + 1:] + base[:i + 1] for i in range(npx)] + [base[::-1]]
+    return {"ns": ns, "NB": nb, "np": sc["nproc"], "pad": pad, "off": off, "workers": workers, "orders": orders,
             "realsize": (res["rows"] if k == nruns - 1 else -1) if ok else -1,
             "realrms": (res["rms_rows"] - rms_off_rows if k == nruns - 1 else -1) if ok else -1,
             "syncbad": res.get("n_sync_bad", 0) if ok else 0, "satlen": res.get("sat_len", ns) if ok else ns,
